@@ -1,0 +1,34 @@
+//go:build verif
+
+// Machine-checked contracts for go-smtp (verification only; this file contains no code).
+// Read by /verif/govc; syntax in /verif/DESIGN.md Appendix C. Spec functions and trusted
+// library stubs live in /verif/spec/*.gspec.
+
+package smtp
+
+//@ contract (*dataReader).Read(r, b) (n, err)
+//@   prop C01 C02 C06 C07 C16
+//@   requires drInv(r)
+//@   ghostset r.delivered = old(r.delivered) + n
+//@   modifies r.state, r.n, r.delivered, b[*], r.r.pos, r.r.iofail, r.r.unreadable
+//@   ensures inv: drInv(r)
+//@   ensures count: 0 <= n && n <= len(b)
+//@   ensures content: forall j :: 0 <= j && j < n ==> b[j] == outv(r.r.in, r.start, old(r.delivered) + j)
+//@   ensures monotone: r.r.pos >= old(r.r.pos) && r.start == old(r.start) && r.limited == old(r.limited) && r.limit == old(r.limit)
+//@   ensures @C07,C02 eof-only-at-end: err == io.EOF ==> r.state == 5 && dS(r.r.in, r.start, r.r.pos) == 5
+//@   ensures @C02 no-read-after-end: old(r.state) == 5 ==> r.r.pos == old(r.r.pos) && n == 0
+//@   ensures @C02 errcond: err != nil ==> r.state == 5 || (r.limited && old(r.n) <= 0) || r.r.iofail
+//@   ensures @C06 budget: r.limited ==> r.delivered <= r.limit
+//@   ensures @C06 toolarge: err == ErrDataTooLarge ==> r.limited && old(r.n) <= 0 && n == 0
+//@   loop 1:
+//@     invariant r.r != nil && r.start <= r.r.pos && r.r.pos >= old(r.r.pos) && 0 <= r.state && r.state <= 5
+//@     invariant 0 <= n && n <= len(b)
+//@     invariant sim: drSim(r)
+//@     invariant out: old(r.delivered) + n == drOut(r)
+//@     invariant content: forall j :: 0 <= j && j < n ==> b[j] == outv(r.r.in, r.start, old(r.delivered) + j)
+//@     invariant r.n == old(r.n) && r.delivered == old(r.delivered) && r.limit == old(r.limit)
+//@     invariant old(r.limited) ==> len(b) <= old(r.n)
+//@     invariant old(r.state) == 5 ==> n == 0 && r.r.pos == old(r.r.pos)
+//@     invariant err == nil
+//@     split on sim,out,content by state: BOL= r.state == 0 | DOT= r.state == 1 | DOTCR= r.state == 2 | CR= r.state == 3 | MID= r.state == 4 | END= r.state == 5
+//@     split on sim,out,content by octet: dot= c == '.' | cr= c == 13 | lf= c == 10 | other= c != '.' && c != 13 && c != 10
